@@ -106,7 +106,7 @@ def gen_plan(rng, tier, idx, opts):
             if rng.random() < 0.2:
                 ops.append({"op": "set_pathloss", "pl": None})
             else:
-                o = {"op": "set_pathloss", "pl": {"shape": [K, K], "np_seed": s(), "scale": rng.choice([1.0, 1e-3, 1e-6])}}
+                o = {"op": "set_pathloss", "pl": {"shape": [K, K], "np_seed": s(), "scale": rng.choice([1.0, 1e-3, 1e-6, 1e-9, 1e-12])}}       # linear path losses of -90..-120 dB are the realistic ones
                 if rng.random() < 0.2:
                     o["pl"]["dtype"] = rng.choice(["int", "float32"])   # the two matrices need not have the same dtype
                 if ext:
